@@ -123,7 +123,10 @@ def summarize(e1):
         obs = r["obligations"]
         if r["expect"] == "failed":   # canary: at least one obligation must be refuted
             if not any(o["status"] == "failed" for o in obs):
-                errors.append((tag, "canary did not fail: the engine accepted a known-false claim"))
+                if r.get("undecided_reason") or not obs or any(o["status"] == "undecided" for o in obs):
+                    undecided.append((tag, "canary undecided: %s" % (r.get("undecided_reason") or "no verdict"), r))
+                else:
+                    errors.append((tag, "canary did not fail: the engine accepted a known-false claim"))
             continue
         if r.get("undecided_reason"):
             undecided.append((tag, r["undecided_reason"], r))
